@@ -138,8 +138,9 @@ static StepResult apply(Live& L, RefState& R, const Ev& e)
         // a parse in the middle of the declarations; all items are optional, so it succeeds unless a letter is shared
         Decl D = R.decl();
         auto got = run_on(*L.p, D, {});
-        R.parsed = true;
         bool conflict = R.letter_conflict();
+        if (!conflict)
+            R.parsed = true; // a successful parse: anything the parser may cache about its declarations exists from now on
         if (conflict && (got.ok || got.why.rfind("parser_error", 0) != 0))
         {
             r.diverged = true;
@@ -460,27 +461,23 @@ int main(int argc, char** argv)
                     break;
             }
         }
-        // phase 2: BFS to a fixpoint over reference states (+ moved flag); one case per first event
+        // phase 2: BFS to a fixpoint over reference states (+ moved / parsed flags) from the empty history.  Every shard walks
+        // the whole graph (cheap: one replay per transition) but runs the oracle's probes only for its share of transitions.
         if (bfs)
-            for (size_t first = 0; first < alpha.size(); first++)
+            for (int shard = 0; shard < 16; shard++)
             {
                 long idx = ctx.next;
-                ctx.each([&] { return mc::Desc{ mc::J().s("phase", "bfs from " + alpha[first].str()).str(), "BFS" }; },
+                ctx.each([&] { return mc::Desc{ mc::J().s("phase", "bfs shard " + std::to_string(shard)).str(), "BFS" }; },
                          [&](mc::Report& rep) {
                              std::set<std::string> seen;
                              std::deque<std::vector<Ev>> frontier;
-                             std::vector<Ev> h0 = { alpha[first] };
-                             if (!check_history(h0, rep, idx, true))
-                                 return;
                              {
-                                 Live L;
                                  RefState R;
-                                 replay(h0, L, R);
                                  seen.insert(R.key());
                              }
-                             frontier.push_back(h0);
+                             frontier.push_back({});
                              long trans = 0;
-                             size_t maxd = 1;
+                             size_t maxd = 0;
                              while (!frontier.empty())
                              {
                                  auto h = frontier.front();
@@ -489,32 +486,48 @@ int main(int argc, char** argv)
                                  {
                                      auto nh = h;
                                      nh.push_back(e);
-                                     trans++;
                                      Live L;
                                      RefState R;
                                      StepResult sr;
-                                     rep.count("executions");
                                      int at = replay(nh, L, R, &sr);
+                                     bool mine = static_cast<int>(mc::hash(hist_json(nh)) % 16) == shard;
+                                     if (mine)
+                                     {
+                                         trans++;
+                                         rep.count("executions");
+                                     }
                                      if (at >= 0)
                                      {
-                                         check_history(nh, rep, idx, false);
+                                         if (mine)
+                                             check_history(nh, rep, idx, false);
                                          continue;
                                      }
-                                     rep.transitions.insert(mc::hash(hist_json(h).substr(0, 0) + R.key() + "<-" + e.str() + "<-" + std::to_string(mc::hash(hist_json(h)))));
-                                     if (seen.insert(R.key()).second)
+                                     if (mine)
                                      {
-                                         rep.states.insert(mc::hash(R.key()));
+                                         rep.transitions.insert(mc::hash(R.key() + "<-" + e.str() + "<-" + std::to_string(mc::hash(hist_json(h)))));
+                                         // probes after every transition (not only into new states): hidden state that the key does not
+                                         // capture still gets its spellings checked along every explored path
                                          for (auto& p : probes(nh, &rep))
                                              rep.violation(p.clause, "C13:" + p.clause + ":" + hist_cls(nh), hist_json(nh), p.detail, idx);
+                                     }
+                                     if (seen.insert(R.key()).second)
+                                     {
+                                         if (shard == 0)
+                                         {
+                                             rep.states.insert(mc::hash(R.key()));
+                                             rep.outcomes.insert(mc::hash(R.key()));
+                                         }
                                          frontier.push_back(nh);
                                          maxd = std::max(maxd, nh.size());
                                      }
                                  }
                              }
-                             rep.count("bfs_states_sum_over_roots", seen.size());
+                             if (shard == 0)
+                                 rep.count("bfs_states", seen.size());
                              rep.count("bfs_transitions", trans);
                              rep.set_max("max_bfs_depth", maxd);
-                             rep.count("bfs_fixpoints");
+                             if (shard == 0)
+                                 rep.count("bfs_fixpoints");
                          });
             }
     };
